@@ -10,7 +10,8 @@ Import ListNotations.
 (* every build (any configuration, any cache and workspace, cache faults only between builds): when
    the task of target t has loaded its dependency outputs and is about to start the command, every
    output of every direct, alias-resolved dependency is a file in the workspace, the dependency is
-   marked loaded with a readable result, and the generated command finds everything it reads *)
+   marked loaded, and the generated command finds everything it reads (a stored result need not exist:
+   a build with the cache disabled writes none) *)
 Theorem C15_deps_present : forall (H : str -> str) cfg s roots w c k t dh b2,
   wf_src s -> no_overwrite s -> node_at s k = Some (NTarget t) ->
   let b := build_prefix H cfg s roots w c k in
@@ -18,19 +19,20 @@ Theorem C15_deps_present : forall (H : str -> str) cfg s roots w c k t dh b2,
   dep_hashes s b (td_deps t) = Some dh ->
   load_dep_outputs H (S (length (s_nodes s))) cfg s (td_deps t) (pt_b0 k (pt_key H s t dh) b) = (true, b2) ->
   (forall d j tj, In d (td_deps t) -> resolve s d = Some (j, tj) ->
-     rt_loaded (get_rt b2 j) = true /\ has_result b2 j /\ outs_present tj (w_ws (b_world b2))) /\
+     rt_loaded (get_rt b2 j) = true /\ outs_present tj (w_ws (b_world b2))) /\
   dep_parts s (w_ws (b_world b2)) (td_deps t) <> None.
 Proof. exact build_deps_present. Qed.
 Print Assumptions C15_deps_present.
 
 (* single task, ANY state (results or blobs may vanish while dependency outputs are being loaded):
-   guard [readable] = no direct dependency's target result is unreadable *)
+   guard [readable] = no direct dependency whose outputs are not in place yet has an unreadable target
+   result *)
 Theorem C15_deps_present_partial : forall (H : str -> str) cfg s f ds b b',
   wf_src s -> no_overwrite s -> rt_len b = length (s_nodes s) -> loaded_ok s b -> readable s b ds ->
   load_dep_outputs H f cfg s ds b = (true, b') ->
   loaded_ok s b' /\
   forall d j tj, In d ds -> resolve s d = Some (j, tj) ->
-    rt_loaded (get_rt b' j) = true /\ has_result b' j /\ outs_present tj (w_ws (b_world b')).
+    rt_loaded (get_rt b' j) = true /\ outs_present tj (w_ws (b_world b')).
 Proof. exact deps_present. Qed.
 Print Assumptions C15_deps_present_partial.
 
@@ -66,11 +68,19 @@ Proof. exact ldo_load_failure. Qed.
 Print Assumptions C15_faults_rerun_after_own_deps.
 
 Theorem C15_faults_unreadable_returns : forall (H : str -> str) f cfg s d0 ds b d dt dkey,
-  resolve s d0 = Some (d, dt) -> rt_key (get_rt b d) = Some dkey ->
+  resolve s d0 = Some (d, dt) -> rt_loaded (get_rt b d) = false -> rt_key (get_rt b d) = Some dkey ->
   rlookup dkey (c_results (b_cache b)) = None ->
   load_dep_outputs H (S f) cfg s (d0 :: ds) b = execute H cfg s d dt dkey false b.
 Proof. exact ldo_unreadable_returns. Qed.
 Print Assumptions C15_faults_unreadable_returns.
+
+(* a dependency whose outputs are already in place (executed or restored earlier in this build) is not
+   looked up in the cache: with the cache disabled (nothing is stored) no dependency is re-run *)
+Theorem C15_loaded_dependency_skipped : forall (H : str -> str) f cfg s d0 ds b d dt,
+  resolve s d0 = Some (d, dt) -> rt_loaded (get_rt b d) = true ->
+  load_dep_outputs H (S f) cfg s (d0 :: ds) b = load_dep_outputs H f cfg s ds b.
+Proof. exact ldo_loaded_skips. Qed.
+Print Assumptions C15_loaded_dependency_skipped.
 
 (* a lost blob + a dependant that must run: same commands in both modes, both succeed *)
 Theorem C15_faults_blob_example :
@@ -145,7 +155,7 @@ Theorem C15_lockstep_build_partial : forall (H : str -> str),
 Proof. exact build_lockstep. Qed.
 Print Assumptions C15_lockstep_build_partial.
 
-(* the guards are needed: a lost blob, a cache-disabled build *)
+(* the blob guard is needed: a lost blob *)
 Theorem C15_lockstep_refuted :
   exists (ops : lmode -> list op) s roots p,
     (forall m, ops m = [OpSources s; OpBuild (mkCfg m true false) roots; OpDropBlob p;
@@ -158,11 +168,23 @@ Theorem C15_lockstep_refuted :
 Proof. exact lockstep_refuted_dropblob. Qed.
 Print Assumptions C15_lockstep_refuted.
 
-Theorem C15_lockstep_cache_off_refuted :
-  nth 1 (x_exec LAll x_ops_cache_off) [] = [["a"]; ["b"]; ["c"]]%char /\
-  nth 1 (x_exec LMinimal x_ops_cache_off) [] = [].
-Proof. exact lockstep_refuted_cache_off. Qed.
-Print Assumptions C15_lockstep_cache_off_refuted.
+(* the histories that used to refute the lock-step for a cache-disabled build (a cache-disabled first build,
+   then a cached one: mode all re-ran everything over the output-less results, mode minimal nothing;
+   formerly C15_lockstep_cache_off_refuted) are in lock-step since a disabled cache is not written
+   (C02-F2 / C13-F1 repaired): same commands, same statuses, same final cache in both modes, and a
+   cache-disabled build between two cached ones leaves the third with nothing to run.  The guard "every
+   build has the cache enabled" stays in [hist_guardb] because the lock-step PROOF covers cached builds only;
+   no refutation of the lock-step by a cache-disabled build is known any more *)
+Theorem C15_lockstep_cache_off_in_lockstep :
+  x_exec LAll x_ops_cache_off = [[["a"]; ["b"]; ["c"]]; [["a"]; ["b"]; ["c"]]]%char /\
+  x_exec LMinimal x_ops_cache_off = [[["a"]; ["b"]; ["c"]]; [["a"]; ["b"]; ["c"]]]%char /\
+  x_stat LAll x_ops_cache_off = x_stat LMinimal x_ops_cache_off /\
+  x_exec LAll x_ops_cache_toggle = [[["a"]; ["b"]; ["c"]]; [["a"]; ["b"]; ["c"]]; []]%char /\
+  x_exec LMinimal x_ops_cache_toggle = [[["a"]; ["b"]; ["c"]]; [["a"]; ["b"]; ["c"]]; []]%char /\
+  x_stat LAll x_ops_cache_toggle = x_stat LMinimal x_ops_cache_toggle /\
+  sy_cache (run_history hI (x_ops_cache_toggle LAll)) = sy_cache (run_history hI (x_ops_cache_toggle LMinimal)).
+Proof. exact lockstep_cache_off_in_lockstep. Qed.
+Print Assumptions C15_lockstep_cache_off_in_lockstep.
 
 (* the history that used to refute the lock-step for "a directory at a file output's path" (build, put a
    directory where a's output belongs, build; formerly C15_lockstep_wrongkind_refuted: mode all re-ran a)
